@@ -85,17 +85,17 @@ pub open spec fn inode_target(t: InodeType) -> Seq<u8> {
 }
 
 impl RootRef<'_> {
-//@prove root.RootRef.resolve
-//@prove root.RootRef.resolve_nofollow
-//@prove root.RootRef.resolve_parent
-//@prove root.RootRef.readlink
-//@prove root.RootRef.create
-//@prove root.RootRef.create_file
-//@prove root.RootRef.remove_inode
-//@prove root.RootRef.remove_dir
-//@prove root.RootRef.remove_file
-//@prove root.RootRef.remove_all
-//@prove root.RootRef.rename
+//@prove root.RootRef.resolve c14
+//@prove root.RootRef.resolve_nofollow c14
+//@prove root.RootRef.resolve_parent c14
+//@prove root.RootRef.readlink c14
+//@prove root.RootRef.create c14
+//@prove root.RootRef.create_file c14
+//@prove root.RootRef.remove_inode c14
+//@prove root.RootRef.remove_dir c14
+//@prove root.RootRef.remove_file c14
+//@prove root.RootRef.remove_all c14
+//@prove root.RootRef.rename c14
 }
 } // verus!
 fn main() {}
